@@ -126,3 +126,17 @@ contract('harness:nli_monotone', harness=H_TWO, module='gnpy.core.science_utils'
          requires=_REQ_GN + [('powers_raised', 'forall(lambda i: si2._pch[i] >= si1._pch[i], NCH(si1))')],
          ensures=[('nli_never_decreases', 'forall(lambda i: result[1][i] >= result[0][i], NCH(si1))')],
          modifies=[], inline_callees=['gnpy.core.science_utils.NliSolver.compute_nli'])
+
+# beta2 from the fibre's dispersion data (scalar dispersion D0 at the reference frequency, optional slope S):
+# D(lambda) = D0 + S (lambda - lambda_ref), or D0 (f / f_ref)^2 without a slope;  beta2 = - lambda^2 D / (2 pi c)
+contract('gnpy.core.elements.Fiber.beta2', name='gnpy.core.elements.Fiber.beta2[scalar dispersion, optional slope]', props=['C03', 'C05'],
+         params={'self': FIBER, 'frequency': vec('n')},
+         requires=[('positive_frequencies', 'forall(lambda i: frequency[i] > 0, len(frequency))'), ('ref', 'self.params._f_dispersion_ref > 0')],
+         let={'p': 'self.params', 'c0': '299792458'},
+         ensures=[('with_slope', 'implies(p._dispersion_slope is not None, forall(lambda i: at(result, i) == '
+                                 '-((c0 / frequency[i]) ** 2 * (p._dispersion[0] + p._dispersion_slope * (c0 / frequency[i] - c0 / p._f_dispersion_ref))) '
+                                 '/ (2 * pi * c0), len(frequency)))'),
+                  ('without_slope', 'implies(p._dispersion_slope is None, forall(lambda i: at(result, i) == '
+                                    '-((c0 / frequency[i]) ** 2 * ((frequency[i] / p._f_dispersion_ref) ** 2 * p._dispersion[0])) / (2 * pi * c0), '
+                                    'len(frequency)))')],
+         use_at_calls=False, modifies=[])
